@@ -175,10 +175,24 @@ Definition disc_ifs (g : graph) (o : op) (ii : N) : Prop :=
   | ORemoveComponent n c =>
       exists c', In c' (first_neighbor g n RHas CComp) /\ name_of g c' = c /\
                  In ii (disc_list g (comp_interface_list g c'))
+  | ORemoveNsTopo nm =>
+      exists s, In s (by_name g CNS nm) /\ In ii (disc_list g (cpn g s))
+  | ONodeRemoveNs n sn =>
+      exists s, In s (first_neighbor g n RHas CNS) /\ name_of g s = sn /\ In ii (disc_list g (cpn g s))
   | ORemoveChild p nm => In ii (cpn g p) /\ name_of g ii = nm
   | ODisconnect _ i => ii = i
   | _ => False
   end.
+
+Lemma art_ns_disconnecting g s s' ii :
+  remove_ns_disconnecting s (g, []) = (inl tt, s') -> In ii (disc_list g (cpn g s)) -> Rart g ii s'.
+Proof.
+  intros E Hii. unfold remove_ns_disconnecting in E.
+  apply bind_ok in E. destruct E as [ifs [s1 [E1 E]]]. apply get_ok in E1. destruct E1 as [-> ->].
+  apply bind_ok in E. destruct E as [[] [s1 [E1 E]]].
+  destruct (peers_loop g _ _ _ (JL_init g) E1) as [[C1 _] [HR _]].
+  intros l sp Hl Ht. apply (ext_to g _ _ _ _ sp (Inv_remove_ns s) C1 E). apply (HR ii Hii l sp Hl Ht).
+Qed.
 
 Lemma art_node_tail g nm n s' ii :
   bind (m_get (fun g => disc_list g (node_interface_list g n))) (fun ifs =>
@@ -230,6 +244,12 @@ Proof.
     apply bind_ok in E. destruct E as [n [s1 [E1 E]]]. apply uniq_ok in E1. destruct E1 as [Hc ->].
     destruct Hd as [n' [Hn' Hii]]. simpl in Hc. rewrite Hc in Hn'. destruct Hn' as [<-|[]].
     apply (art_node_tail g name n _ ii E Hii l sp Hl Ht).
+  - (* topology.remove_network_service *)
+    apply then_ret_ok in E. destruct E as [[] E]. unfold api_remove_ns_topo in E.
+    apply bind_ok in E. destruct E as [all [s1 [E1 E]]]. apply get_ok in E1. destruct E1 as [-> ->].
+    apply bind_ok in E. destruct E as [n [s1 [E1 E]]]. apply uniq_ok in E1. destruct E1 as [Hc ->].
+    destruct Hd as [s0 [Hs0 Hii]]. simpl in Hc. rewrite Hc in Hs0. destruct Hs0 as [<-|[]].
+    apply (art_ns_disconnecting g n _ ii E Hii l sp Hl Ht).
   - (* remove_component *)
     apply then_ret_ok in E. destruct E as [[] E]. unfold api_remove_component in E.
     apply bind_ok in E. destruct E as [[] [s1 [E1 E]]]. apply need_class_ok in E1. destruct E1 as [_ [_ ->]].
@@ -243,6 +263,17 @@ Proof.
     rewrite Hc in Hxc. destruct Hxc as [<-|[]].
     destruct (peers_loop g _ _ _ (JL_init g) E1) as [[C1 _] [HR _]].
     apply (ext_to g _ _ _ _ sp (Inv_remove_component c) C1 E). apply (HR ii Hii l sp Hl Ht).
+  - (* node.remove_network_service *)
+    apply then_ret_ok in E. destruct E as [[] E]. unfold api_node_remove_ns in E.
+    apply bind_ok in E. destruct E as [x0 [s1 [E1 E]]]. apply need_node_ok in E1. destruct E1 as [_ ->].
+    apply bind_ok in E. destruct E as [[] [s1 [E1 E]]]. apply guard_ok in E1. destruct E1 as [_ ->].
+    apply bind_ok in E. destruct E as [ss [s1 [E1 E]]]. apply get_ok in E1. destruct E1 as [-> ->].
+    apply bind_ok in E. destruct E as [s0 [s1 [E1 E]]]. apply uniq_ok in E1. destruct E1 as [Hs ->].
+    destruct Hd as [s' [Hs1 [Hs2 Hii]]]. simpl in Hs.
+    assert (Hxc : In s' (child_by_name g (first_neighbor g n RHas CNS) sname)).
+    { unfold child_by_name. apply filter_In. split; [exact Hs1 | apply N.eqb_eq; exact Hs2]. }
+    rewrite Hs in Hxc. destruct Hxc as [<-|[]].
+    apply (art_ns_disconnecting g s0 _ ii E Hii l sp Hl Ht).
   - (* disconnect_interface *)
     subst ii.
     apply bind_ok in E. destruct E as [c [s1 [E E2]]]. apply ret_ok in E2. destruct E2 as [_ E2]. subst s1.
@@ -270,28 +301,55 @@ Proof.
     apply (ext_to g _ _ _ _ sp (Inv_remove_cp i false) C1 E1). apply (HR l sp Hl Ht).
 Qed.
 
-(* unpeer of two services that are not joined by a chain of four `connects` edges
-   (service - port - link - port - service) raises and deletes nothing *)
+Lemma dedup_pairs_In p l : In p (dedup_pairs l) -> In p l.
+Proof.
+  induction l as [|q l IH]; simpl; [tauto|].
+  destruct (existsb (pair_eqb q) l); [intros H; right; apply IH; exact H|].
+  intros [<-|H]; [left; reflexivity | right; apply IH; exact H].
+Qed.
+
+Lemma chains4_In g a b x y :
+  In (x, y) (chains4 g a b) ->
+  exists m, In x (cn g a) /\ In m (cn g x) /\ In y (cn g m) /\ In b (cn g y).
+Proof.
+  unfold chains4. intros Hp. apply in_flat_map in Hp. destruct Hp as [x' [Hx Hp]].
+  apply in_flat_map in Hp. destruct Hp as [m [Hm Hp]].
+  apply in_flat_map in Hp. destruct Hp as [y' [Hy Hp]].
+  destruct (reach1 g y' b) eqn:Er; [|destruct Hp]. destruct Hp as [Hp|[]]. inversion Hp; subst x' y'.
+  exists m. repeat split; try assumption. apply memN_In. exact Er.
+Qed.
+
+Lemma unpeer_ends_In g a b l xy : unpeer_ends g a b = Some l -> In xy l -> In xy (chains4 g a b).
+Proof.
+  unfold unpeer_ends. destruct (N.eqb a b || reach1 g a b || reach2 g a b || reach3 g a b); [discriminate|].
+  destruct (dedup_pairs (chains4 g a b)) as [|p r] eqn:E; [discriminate|].
+  intros H Hin. inversion H; subst l. apply dedup_pairs_In. rewrite E. exact Hin.
+Qed.
+
+(* unpeer of two services that are not joined by service - ServicePort - link - ServicePort - service (a chain of
+   four `connects` edges whose inner ends are both ServicePorts) raises and deletes nothing *)
 Theorem unpeer_only_peered ex a b cs g r g' tr :
   run (exec ex (OUnpeer a b) cs) g = (r, (g', tr)) ->
-  (forall x m y, In x (cn g a) -> In m (cn g x) -> In y (cn g m) -> ~ In b (cn g y)) ->
+  (forall x m y, In x (cn g a) -> In m (cn g x) -> In y (cn g m) -> In b (cn g y) ->
+                 ~ (type_of g x = T_ServicePort /\ type_of g y = T_ServicePort)) ->
   (exists e, r = inr e) /\ tr = [] /\ g' = g.
 Proof.
   intros E H.
-  assert (Hc : chains4 g a b = []).
-  { destruct (chains4 g a b) as [|p rest] eqn:Ec; [reflexivity|]. exfalso.
-    assert (Hp : In p (chains4 g a b)) by (rewrite Ec; left; reflexivity).
-    unfold chains4 in Hp. apply in_flat_map in Hp. destruct Hp as [x [Hx Hp]].
-    apply in_flat_map in Hp. destruct Hp as [m [Hm Hp]].
-    apply in_flat_map in Hp. destruct Hp as [y [Hy Hp]].
-    destruct (reach1 g y b) eqn:Er; [|destruct Hp].
-    apply (H x m y Hx Hm Hy). apply memN_In. exact Er. }
-  assert (Hu : unpeer_ends g a b = None).
-  { unfold unpeer_ends. rewrite Hc. simpl. destruct (N.eqb a b || reach1 g a b || reach2 g a b || reach3 g a b); reflexivity. }
   unfold run in E. simpl in E. unfold bind, api_unpeer, bind, need_node, m_read, m_get in E. simpl in E.
   destruct (find_node g a); [|inversion E; eauto].
   destruct (find_node g b); [|inversion E; eauto].
-  simpl in E. rewrite Hu in E. simpl in E. inversion E. eauto.
+  simpl in E. destruct (unpeer_ends g a b) as [[|[x y] [|xy' l]]|] eqn:Hu; simpl in E;
+    try (inversion E; eauto; fail).
+  - (* one candidate: its ends are not both service ports *)
+    assert (Hb : both_sp g (x, y) = false).
+    { destruct (both_sp g (x, y)) eqn:Eb; [|reflexivity]. exfalso.
+      unfold both_sp in Eb. simpl in Eb. apply andb_true_iff in Eb. destruct Eb as [E1 E2].
+      apply N.eqb_eq in E1. apply N.eqb_eq in E2.
+      destruct (chains4_In g a b x y (unpeer_ends_In g a b _ (x, y) Hu (or_introl eq_refl))) as [m [A [B [C D]]]].
+      apply (H x m y A B C D). auto. }
+    unfold api_unpeer_checked, bind, m_get, guard in E. simpl in E. rewrite Hb in E. simpl in E.
+    inversion E. eauto.
+  - match type of E with context [if ?c then _ else _] => destruct c end; simpl in E; inversion E; eauto.
 Qed.
 
 (* whatever disconnect_interface deletes is a ServicePort peering with the interface, a connection point
